@@ -18,12 +18,12 @@ MANIFEST_INFO = {
     "engine": "B",
     "design_ref": "DESIGN.md section 5, C18",
     "technique": "explicit-state BFS over add_rule/startTestRun/stopTestRun/status histories on a real StreamResultRouter with recording sinks, routing-precedence reference model per step; exhaustive enumeration of StreamToQueue/consuming-router nestings",
-    "level_text": "All histories of <= 6 (quick) / 8 (thorough) operations over 12 rule kinds with a new sink each a refused add_rule (two-segment prefix) and 12 that add a further rule (with or without do_start_stop_run) for the fallback or the most recent sink (<=3 unambiguous rules), run start/stop and 21 status events (7 route codes of 0..4 segments x 3 test ids) are executed on a fresh real router per fallback configuration; after every operation every sink's log is compared with the model (exactly one destination, fields unchanged, exactly one leading segment consumed, start/stop delivered once to registered sinks only). The push/pop inverse is enumerated for every nesting of 1..3 StreamToQueue codes over 4 original route codes.",
+    "level_text": "All histories of <= 6 (quick) / 8 (thorough) operations over 12 rule kinds with a new sink each a refused add_rule (two-segment prefix) and 12 that add a further rule (with or without do_start_stop_run) for the fallback or the most recent sink (<=3 unambiguous rules), run start/stop and 24 status events (8 route codes of 0..4 segments x 3 test ids) are executed on a fresh real router per fallback configuration; after every operation every sink's log is compared with the model (exactly one destination, fields unchanged, exactly one leading segment consumed, start/stop delivered once to registered sinks only). The push/pop inverse is enumerated for every nesting of 1..3 StreamToQueue codes over 4 original route codes.",
     "level_note": "Events are passed by keyword or positionally; a later rule for the same prefix or id replaces the earlier one (one rule per key).",
 }
 
 T0 = datetime.datetime(2020, 1, 1, tzinfo=datetime.timezone.utc)
-ROUTE_CODES = (None, "0", "1", "0/1", "1/0/2", "0/1/2/3", "2")
+ROUTE_CODES = (None, "0", "1", "0/1", "1/0/2", "0/1/2/3", "2", "00/1")  # ("00": a first segment that merely begins with a registered prefix)
 TEST_IDS = ("a", "b", None)
 STATUS_OPS = tuple(("status", rc, tid) for rc in ROUTE_CODES for tid in TEST_IDS)
 RULE_OPS = tuple(
